@@ -386,7 +386,13 @@ def c06_6(ctx):
         from rules.shared import not_a_register
         ctx.check(not_a_register(cl, name, regs), f'reject:register-as-{key}', fac.site(c),
                   f'a {key} named like a register (in any letter case, as register operands match) is rejected', describe_facts(cl))
-        valid = any(len(cc) == 1 and next(iter(cc))[0] == 'call' and next(iter(cc))[1] == f'is_valid_label({name})' and next(iter(cc))[-1] for cc in cl)
+        spelled = {name}
+        try:
+            from engine.helpers import deref as _deref
+            spelled.add(unparse(_deref(ctx, fac, b.get('label'), c)))     # the text the name was bound to (`label_match.group(2).strip()`)
+        except Exception:
+            pass
+        valid = any(len(cc) == 1 and next(iter(cc))[0] == 'call' and next(iter(cc))[1] in {f'is_valid_label({x})' for x in spelled} and next(iter(cc))[-1] for cc in cl)
         ctx.check(valid, f'reject:invalid-{key}-name', fac.site(c), f'a {key} must have a valid label name', describe_facts(cl))
         if is_const:
             ok = any(len(cc) == 1 and next(iter(cc))[0] == 'call' and 'contains_register_labels' in next(iter(cc))[1] and next(iter(cc))[-1] is False for cc in cl)
